@@ -544,53 +544,61 @@ def readFile {α : Type} (dcd : Json → Option α) (f : Bytes × Body) : Option
   | .doc j => dcd j
   | _ => none
 
-/-- the loader on files that all carry the extension and hold documents of items: every item, in file order -/
-theorem loadL_docs {α : Type} (dcd : Json → Option α) (e : Bytes) (enc : α → Json) (nrm : α → α)
-    (hcodec : ∀ c, dcd (enc c) = some (nrm c)) :
-    (M : List (Bytes × Body)) → (∀ f ∈ M, ext f.1 = e ∧ ∃ c, f.2 = .doc (enc c)) →
+/-- the loader on files that all carry the extension and hold documents of items the codec reads back: every item,
+in file order -/
+theorem loadL_docs {α : Type} (dcd : Json → Option α) (e : Bytes) (enc : α → Json) (nrm : α → α) :
+    (M : List (Bytes × Body)) → (∀ f ∈ M, ext f.1 = e ∧ ∃ c, f.2 = .doc (enc c) ∧ dcd (enc c) = some (nrm c)) →
     loadL dcd e M = some (M.filterMap (readFile dcd))
   | [], _ => rfl
   | f :: r, h => by
-    obtain ⟨he, c, hc⟩ := h f (by simp)
+    obtain ⟨he, c, hc, hcodec⟩ := h f (by simp)
     have h1 : (ext f.1 != e) = false := by simp [he]
-    have ih := loadL_docs dcd e enc nrm hcodec r (fun q hq => h q (by simp [hq]))
+    have ih := loadL_docs dcd e enc nrm r (fun q hq => h q (by simp [hq]))
     obtain ⟨n, b⟩ := f
     simp only at hc he h1
     subst hc
     simp [loadL, h1, hcodec, ih, readFile]
 
-theorem filterMap_docOf {α : Type} (dcd : Json → Option α) (enc : α → Json) (nrm : α → α)
-    (hcodec : ∀ c, dcd (enc c) = some (nrm c)) (L : List (Bytes × α)) :
+theorem filterMap_docOf {α : Type} (dcd : Json → Option α) (enc : α → Json) (nrm : α → α) (L : List (Bytes × α))
+    (hcodec : ∀ p ∈ L, dcd (enc p.2) = some (nrm p.2)) :
     (L.map (docOf enc)).filterMap (readFile dcd) = L.map (fun p => nrm p.2) := by
   induction L with
   | nil => rfl
-  | cons p r ih => simp [docOf, readFile, hcodec, ih]
+  | cons p r ih =>
+    have h1 := hcodec p (by simp)
+    have ih' := ih (fun q hq => hcodec q (by simp [hq]))
+    simp [docOf, readFile, h1] at ih' ⊢
+    exact ih'
 
 /-- **the directory round trip**: whatever the directory held, after the dump the loader returns exactly the dumped
 items (each as one (un)marshal cycle `nrm` leaves it), as a permutation -/
 theorem dynamic_roundtrip_gen {α : Type} (ops : List NameOp) (e : Bytes) (hops : opsOK ops e = true)
-    (enc : α → Json) (dcd : Json → Option α) (nrm : α → α) (hcodec : ∀ c, dcd (enc c) = some (nrm c))
-    (nameOf : α → Bytes) (clock : Nat → Bytes) (hclock : ClockOK clock) (d : Dir) (cs : List α)
+    (enc : α → Json) (dcd : Json → Option α) (nrm : α → α) (nameOf : α → Bytes) (clock : Nat → Bytes)
+    (hclock : ClockOK clock) (d : Dir) (cs : List α) (hcodec : ∀ c ∈ cs, dcd (enc c) = some (nrm c))
     (hnames : ∀ c ∈ cs, free 0 (nameOf c)) :
     ∃ d' l, marshalDynamic ops enc nameOf clock d cs = some d' ∧ unmarshalDynamic dcd e d' = some l ∧
       l.Perm (cs.map nrm) := by
   obtain ⟨files, h1, _, h3, h4⟩ := marshalDynamic_spec ops e hops enc nameOf clock hclock d cs hnames
+  have hmem : ∀ p ∈ files, p.2 ∈ cs := by
+    intro p hp
+    have : p.2 ∈ files.map (·.2) := List.mem_map_of_mem hp
+    rw [h4] at this
+    exact List.mem_reverse.mp this
   refine ⟨files.map (docOf enc),
     ((files.map (docOf enc)).mergeSort (fun a b => bytesLe a.1 b.1)).filterMap (readFile dcd), h1, ?_, ?_⟩
   · unfold unmarshalDynamic
-    apply loadL_docs dcd e enc nrm hcodec
+    apply loadL_docs dcd e enc nrm
     intro f hf
     have hf' : f ∈ files.map (docOf enc) := (List.mergeSort_perm _ _).mem_iff.mp hf
     obtain ⟨p, hp, rfl⟩ := List.mem_map.mp hf'
-    exact ⟨h3 p hp, p.2, rfl⟩
+    exact ⟨h3 p hp, p.2, rfl, hcodec p.2 (hmem p hp)⟩
   · have hp : ((files.map (docOf enc)).mergeSort (fun a b => bytesLe a.1 b.1)).Perm (files.map (docOf enc)) :=
       List.mergeSort_perm _ _
     have := hp.filterMap (readFile dcd)
-    rw [filterMap_docOf dcd enc nrm hcodec] at this
+    rw [filterMap_docOf dcd enc nrm files (fun p hp => hcodec p.2 (hmem p hp))] at this
     refine this.trans ?_
     have e1 : files.map (fun p => nrm p.2) = (files.map (·.2)).map nrm := by simp
     rw [e1, h4, List.map_reverse]
     exact List.reverse_perm _
-
 
 end MosnVerif.Model.ConfigDir
